@@ -83,6 +83,26 @@ def make_prog(rng, base=None, opts=None):
                 if q["id"] == p["id"]:
                     q["args"] = q["args"] + [extra]
             prog["defect"] += "+dup-param"
+    # field-name literal spellings (C12): wrong case, unknown name, raw string, prevented field
+    sps = [p for p in allp if p["struct"] and p["fields"]]
+    if sps and rng.random() < opts.get("lit_p", 0.06):
+        p = rng.choice(sps)
+        kind = rng.choice(["case", "unknown", "raw", "case"])
+        names = list(p["fields"])
+        j = rng.randrange(len(names))
+        lits = ['"%s"' % n for n in names]
+        if kind == "case":
+            lits[j] = '"%s"' % (names[j].lower() if names[j].lower() != names[j] else names[j].upper())
+        elif kind == "unknown":
+            lits[j] = '"Nope%d"' % p["id"]
+        else:
+            lits[j] = "`%s`" % names[j]
+        for q in allp:
+            if q["id"] == p["id"]:
+                q["_custom_lits"] = lits
+                q["_lit_defect"] = kind
+        prog["defect"] += "+lit-" + kind
+        prog["star"] = False
     # extra tagged fields on struct-provided types
     prog["extra_fields"] = {}
     for p in allp:
@@ -381,6 +401,9 @@ class Render:
         return out
 
     def set_lits(self, pr):
+        if pr.get("_custom_lits") is not None:
+            pr["_lits"] = list(pr["_custom_lits"])
+            return
         fields = self.types[pr["outs"][0] // 2]["fields"]
         allsp = [f["name"] for f in fields if not self.prevented(f["tag"])]
         if self.p["star"] and allsp == pr["fields"]:
